@@ -370,16 +370,18 @@ type scnRun struct {
 	nest     *nestSpec // a run of the same node object is nested into this exec callback (re-entrancy differential)
 	nestDone bool
 	nestBad  string
-	pending  []ConnOp // Connect calls of this run that are still to be made from inside post callbacks
-	visitLog bool     // append node ids to a list in the store (C10 differential)
+	pending  []ConnOp   // Connect calls of this run that are still to be made from inside post callbacks
+	visitLog bool       // append node ids to a list in the store (C10 differential)
 	compact  *longFacts // a very long run: callback events are counted and checked as they come instead of being kept
 }
 
 // longFacts: what is kept of a run with tens of thousands of rounds of the same one-node body
 type longFacts struct {
 	Rounds, Preps, Execs, Posts, Fbs int
-	InOrder, Store             bool
-	next                       string
+	InOrder, Store                   bool
+	Chain                            bool // a chain of Rounds distinct nodes (visited once each, in order) instead of Rounds rounds of one node
+	EndAct                           int
+	next                             string
 }
 
 func (l *longFacts) absorb(e Event) bool {
@@ -387,6 +389,9 @@ func (l *longFacts) absorb(e Event) bool {
 	switch ev {
 	case "prep":
 		l.Preps++
+		if id, _ := e["node"].(int); l.Chain && id != l.Preps {
+			l.InOrder = false // the k-th visit of a chain is node k
+		}
 	case "exec":
 		l.Execs++
 	case "post":
@@ -1239,11 +1244,14 @@ func runEngineScenarioFull(cfg EngineCfg, script Script, viaFlowRun bool, nest *
 	if cfg.GenMode == "longloop" {
 		s.maxCb = 20000 // a legitimately long run
 	}
-	if cfg.GenMode == "hugeloop" {
+	if cfg.GenMode == "hugeloop" || cfg.GenMode == "longchain" {
 		var rounds int
 		fmt.Sscanf(cfg.GenSeed, "%d", &rounds)
 		s.maxCb = 4*rounds + 100
-		s.compact = &longFacts{Rounds: rounds, InOrder: true, Store: true, next: "prep"}
+		s.compact = &longFacts{Rounds: rounds, InOrder: true, Store: true, next: "prep", EndAct: 3}
+		if cfg.GenMode == "longchain" {
+			s.compact.Chain, s.compact.EndAct = true, 1
+		}
 	}
 	for id := range cfg.Nodes {
 		s.node(id+1, 0)
@@ -1331,7 +1339,7 @@ func runEngineScenarioFull(cfg EngineCfg, script Script, viaFlowRun bool, nest *
 		if s.compact != nil {
 			l := s.compact
 			s.log(Event{"ev": "longrun", "rounds": l.Rounds, "preps": l.Preps, "execs": l.Execs, "posts": l.Posts, "fbs": l.Fbs,
-				"inorder": l.InOrder, "sok": l.Store})
+				"inorder": l.InOrder, "sok": l.Store, "endact": l.EndAct})
 		}
 		if !panicked {
 			errs := []any{}
